@@ -67,18 +67,29 @@ class BuildError(Exception):
     pass
 
 def build_coq():
-    """Full .vo build of the development (cached by make)."""
+    """Full .vo build of the development (cached by make).  `make -k`: a file that no longer compiles (e.g. a
+    theorem computed over the regenerated tables) stops only what depends on it; .vo files older than
+    their source are removed so that nothing is checked against a stale library.  Returns (all built, log)."""
     with Lock("coq"):
-        if not os.path.exists(os.path.join(COQ, "Makefile")):
+        mk, proj = os.path.join(COQ, "Makefile"), os.path.join(COQ, "_CoqProject")
+        if not os.path.exists(mk) or os.path.getmtime(mk) < os.path.getmtime(proj):
             sh("coq_makefile -f _CoqProject -o Makefile", cwd=COQ)
-        p = sh("timeout 3000 make -j%d 2>&1" % NCPU, cwd=COQ, check=False)
+        p = sh("timeout 3000 make -k -j%d 2>&1" % NCPU, cwd=COQ, check=False)
+        if p.returncode != 0:
+            for vo in re.findall(r"\[Makefile:\d+: (\S+\.vo)\] Error", p.stdout):
+                if os.path.exists(os.path.join(COQ, vo)):
+                    os.unlink(os.path.join(COQ, vo))          # what failed to build must not be loaded from an older build
+            for root, _, files in os.walk(COQ):
+                for f in files:
+                    if f.endswith(".v"):
+                        vo = os.path.join(root, f + "o")
+                        if os.path.exists(vo) and os.path.getmtime(vo) < os.path.getmtime(os.path.join(root, f)):
+                            os.unlink(vo)
         return p.returncode == 0, p.stdout
 
 def build_model():
     """Extract the executable model to OCaml and build the driver (cached on source hash)."""
-    ok, out = build_coq()
-    if not ok:
-        raise BuildError("the Coq development does not build:\n" + out[-3000:])
+    ok, out = build_coq()       # a failed Facts file is reported by the proof leg of the property it serves
     with Lock("coq"):
         ok, out = True, ""
         srcs = sorted(f for f in os.listdir(COQ) if f.endswith(".v")) + ["Gen/Tables.v", "../ocaml/driver.ml"]
@@ -294,10 +305,10 @@ def proof_leg(prop):
     thms = re.findall(r"^\s*Theorem\s+(\w+)", src, re.M)
     res["obligations"] = len(thms)
     res["theorems"] = thms
+    make_err = ""
     if not ok:
-        res["detail"] = "development does not build:\n" + out[-1500:]
-        res["failed_theorem"] = "make"
-        return res
+        errs = re.findall(r'File "\./([^"]+)", line (\d+)[^\n]*\n((?:.*\n){0,6})', out)
+        make_err = "; ".join("%s:%s %s" % (f, l, " ".join(t.split())[:200]) for f, l, t in errs[:3])
     bad = scan_forbidden()
     if bad:
         res["detail"] = "forbidden constructs: " + "; ".join(bad[:10])
@@ -306,9 +317,9 @@ def proof_leg(prop):
     with Lock("coq"):
         p = sh("timeout 900 coqc -Q . Az65 Props/%s.v" % prop, cwd=COQ, check=False)
     if p.returncode != 0:
-        res["detail"] = "Props/%s.v does not compile:\n%s" % (prop, p.stdout[-1500:])
+        res["detail"] = "Props/%s.v does not compile:\n%s%s" % (prop, p.stdout[-1500:], ("\nmake: " + make_err) if make_err else "")
         m = re.search(r'line (\d+)', p.stdout)
-        res["failed_theorem"] = "Props/%s.v:%s" % (prop, m.group(1) if m else "?")
+        res["failed_theorem"] = "Props/%s.v:%s%s" % (prop, m.group(1) if m else "?", (" (" + make_err[:200] + ")") if make_err else "")
         return res
     # Print Assumptions output: either "Closed under the global context" or "Axioms:" + list
     chunks = re.split(r"(?=Closed under the global context|Axioms:)", p.stdout)
@@ -410,6 +421,14 @@ class Check:
         if self.violations:
             os.makedirs(os.path.join(VERIF, "replays"), exist_ok=True)
             seen = set()
+            # a broken proof obligation / correspondence for which a concrete failing input was found is reported
+            # through that input (the broken obligations are named inside its replay file)
+            with_input = [v for v in self.violations if not v[2]]
+            without = [v for v in self.violations if v[2]]
+            if with_input and without:
+                w0 = with_input[0]
+                with_input[0] = (w0[0], dict(w0[1], broken_obligations=[{"what": w[0][:600], "detail": w[1]} for w in without[:4]]), False)
+                self.violations = with_input
             for what, replay, no_input in self.violations[:5]:
                 body = json.dumps({"property": self.prop, "what": what, "replay": replay, "seed": self.seed}, indent=1, sort_keys=True)
                 h = hashlib.sha1(body.encode()).hexdigest()[:12]
